@@ -305,10 +305,10 @@ func c10(r *Run) {
 	if w.Cfg.Name == "linux" {
 		// the registration is removed before the slot can be freed (C05.R12), and a queued hang-up carries the callback
 		// captured under the token, never a pointer to the slot (C11.R1)
-		r.borrow([]string{"C05.R12:detach-before-callbacks"}, "C05.R12", "C10.R7", func() { c05(r) })
+		r.borrow([]string{"C05.R12:detach-before-callbacks", "C05.R12:detach-after-lock"}, "C05.R12", "C10.R7", func() { c05(r) })
 		// a second run of the finalizer would Free() a slot that may already belong to another connection: the once-rules of C05
 		r.borrow([]string{"C05.R1:", "C05.R2:", "C05.R7:"}, "C05.R", "C10.R8.", func() { c05(r) })
-		r.borrow([]string{"C11.R1:who-reads-onhup", "C11.R1:onhup-not-inline", "C11.R1:queue-before-release", "C11.R1:detach-before-release"}, "C11.R1", "C10.R1", func() { c11(r) })
+		r.borrow([]string{"C11.R1:who-reads-onhup", "C11.R1:onhup-not-inline", "C11.R1:no-hangup-callback-on-the-poller-goroutine", "C11.R1:hups-run-async", "C11.R1:queue-before-release", "C11.R1:detach-before-release"}, "C11.R1", "C10.R1", func() { c11(r) })
 		// premise of the "under the flushing lock" justification in R4
 		r.borrow([]string{"C05.R8:stop-flushing-first:operator.Free"}, "C05.R8", "C10.R4", func() { c05(r) })
 	}
